@@ -149,3 +149,9 @@ package parse
 //@   ensures psvalid(ps) && ps.src === old(ps.src) && ps.pos >= old(ps.pos)
 //@   ensures [range] 0 <= Node.n(n).From && Node.n(n).From <= Node.n(n).To && Node.n(n).To == ps.pos && Node.n(n).To <= len(ps.src)
 //@   ensures [text-is-slice-of-range] Node.n(n).sourceText === ps.src[Node.n(n).From : Node.n(n).To]
+
+// Parsing builds a new tree and reports errors; it has no effect on existing objects
+// (used by the callers in pkg/eval, C16).
+//@ func Parse
+//@   trusted
+//@   pure
